@@ -4,6 +4,7 @@ package chk
 
 import (
 	"fmt"
+	"go/constant"
 	"go/token"
 	"go/types"
 	"sort"
@@ -507,4 +508,222 @@ func derefsReceiver(g *ssa.Function) bool {
 	}
 	derefCache[g] = res
 	return res
+}
+
+func surveyAssert(c *Ctx, r *Report) {
+	for _, nm := range []string{"C04", "C16"} {
+		var entries []*ssa.Function
+		if nm == "C04" {
+			entries = entriesC04(c)
+		} else {
+			entries = entriesC16(c)
+		}
+		scope, _ := scopeFrom(c, entries)
+		var fns []*ssa.Function
+		for f := range scope {
+			fns = append(fns, f)
+		}
+		sort.Slice(fns, func(i, j int) bool { return fns[i].String() < fns[j].String() })
+		n := 0
+		for _, f := range fns {
+			if f.Synthetic != "" {
+				continue
+			}
+			for _, b := range f.Blocks {
+				for _, ins := range b.Instrs {
+					ta, ok := ins.(*ssa.TypeAssert)
+					if !ok || ta.CommaOk {
+						continue
+					}
+					n++
+					fmt.Printf("%s %s: %s.(%s) at %s\n", nm, SSAFuncName(f), ta.X.Name(), ta.AssertedType, c.Pos(ta.Pos()))
+				}
+			}
+		}
+		fmt.Println(nm, "unchecked assertions:", n)
+	}
+}
+
+func init() { Registry["WASSERT"] = surveyAssert }
+
+// ruleGASSERT — an unchecked type assertion v.(*T) on a Box is justified by the box-type name tested just
+// before it: every decoder registered under that name (both registries) returns exactly *T; or v is the result
+// of a call whose concrete result type is *T.
+func ruleGASSERT(c *Ctx, r *Report, scope map[*ssa.Function]bool, floor int) {
+	p := c.Pkg("mp4")
+	scratch := NewReport("scratch")
+	dec, decSR := ruleTREG(c, scratch)
+	if p == nil || dec == nil {
+		r.Undecided("G-ASSERT", "anchor:registries", "", "registries not readable")
+		return
+	}
+	prog := c.SSA()
+	typesOf := func(name string) map[string]bool {
+		out := map[string]bool{}
+		for _, m := range []map[string]*types.Func{dec, decSR} {
+			if fn, ok := m[name]; ok {
+				concreteReturnTypes(c, prog.FuncValue(fn), 0, map[*ssa.Function]bool{}, out)
+			} else {
+				out["<not registered>"] = true
+			}
+		}
+		return out
+	}
+	var fns []*ssa.Function
+	for f := range scope {
+		fns = append(fns, f)
+	}
+	sort.Slice(fns, func(i, j int) bool { return fns[i].String() < fns[j].String() })
+	n := 0
+	cnt := map[string]int{}
+	for _, f := range fns {
+		if f.Synthetic != "" {
+			continue
+		}
+		for _, b := range f.Blocks {
+			for _, ins := range b.Instrs {
+				ta, ok := ins.(*ssa.TypeAssert)
+				if !ok || ta.CommaOk {
+					continue
+				}
+				n++
+				want := types.TypeString(ta.AssertedType, func(p *types.Package) string { return p.Name() })
+				base := fmt.Sprintf("%s:.(%s)", SSAFuncName(f), want)
+				cnt[base]++
+				key := base
+				if cnt[base] > 1 {
+					key = fmt.Sprintf("%s#%d", base, cnt[base])
+				}
+				// (a) result of a call with a single concrete type
+				if ex, ok := ta.X.(*ssa.Extract); ok {
+					if call, ok := ex.Tuple.(*ssa.Call); ok {
+						if g := call.Call.StaticCallee(); g != nil && inRepo(g) {
+							got := map[string]bool{}
+							concreteReturnTypes(c, g, ex.Index, map[*ssa.Function]bool{}, got)
+							if len(got) == 1 && got[want] {
+								r.OK("G-ASSERT", key, c.Pos(ta.Pos()), "the asserted value is the result of "+SSAFuncName(g)+", which returns only "+want)
+								continue
+							}
+						}
+					}
+				}
+				// (b) names tested by the dominating string comparisons
+				var names []string
+				hasDominatingTest(nil, b, func(cond ssa.Value, truth bool) bool {
+					bo, ok := cond.(*ssa.BinOp)
+					if !ok || bo.Op != token.EQL || !truth {
+						return false
+					}
+					for i, o := range []ssa.Value{bo.X, bo.Y} {
+						k, isC := o.(*ssa.Const)
+						if !isC || k.Value == nil || k.Value.Kind() != constant.String {
+							continue
+						}
+						other := []ssa.Value{bo.Y, bo.X}[i]
+						if isTypeNameOf(other, ta.X) {
+							names = append(names, constant.StringVal(k.Value))
+						}
+					}
+					return false
+				})
+				// switch arms sharing a body: several names jump to the block; collect from all predecessors
+				if len(names) == 0 {
+					names = namesFromPreds(b, ta.X)
+				}
+				if len(names) == 0 {
+					r.Bad("G-ASSERT", key, c.Pos(ta.Pos()), "unchecked type assertion with no dominating test of the box type name and not on the result of a typed decoder: panics when the value has another type")
+					continue
+				}
+				bad := ""
+				for _, nm := range names {
+					got := typesOf(nm)
+					if len(got) != 1 || !got[want] {
+						var l []string
+						for t := range got {
+							l = append(l, t)
+						}
+						sort.Strings(l)
+						bad += fmt.Sprintf("boxes named %q are decoded as %v; ", nm, l)
+					}
+				}
+				if bad != "" {
+					r.Bad("G-ASSERT", key, c.Pos(ta.Pos()), "unchecked type assertion to "+want+": "+bad)
+				} else {
+					r.OK("G-ASSERT", key, c.Pos(ta.Pos()), fmt.Sprintf("under the name test %q; the registered decoders for it return only %s", names, want))
+				}
+			}
+		}
+	}
+	if n < floor {
+		r.Undecided("G-ASSERT", "scope", "", fmt.Sprintf("only %d unchecked assertions found (floor %d)", n, floor))
+	}
+}
+
+// isTypeNameOf: v is X.Type() for the interface value X (same SSA value), directly or via a local.
+func isTypeNameOf(v, X ssa.Value) bool {
+	switch x := v.(type) {
+	case *ssa.Call:
+		if x.Call.IsInvoke() && x.Call.Method.Name() == "Type" && sameSSA(x.Call.Value, X) {
+			return true
+		}
+	case *ssa.Extract:
+		return false
+	case *ssa.Phi:
+		for _, e := range x.Edges {
+			if !isTypeNameOf(e, X) {
+				return false
+			}
+		}
+		return len(x.Edges) > 0
+	}
+	return false
+}
+
+// namesFromPreds: the block is the shared body of several `case "a", "b":` labels: every predecessor ends in a
+// comparison of X.Type() with a constant and jumps here on equality.
+func namesFromPreds(b *ssa.BasicBlock, X ssa.Value) []string {
+	var names []string
+	var collect func(blk *ssa.BasicBlock, depth int) bool
+	collect = func(blk *ssa.BasicBlock, depth int) bool {
+		if depth > 3 || len(blk.Preds) == 0 {
+			return false
+		}
+		for _, p := range blk.Preds {
+			if len(p.Instrs) == 0 {
+				return false
+			}
+			ifi, ok := p.Instrs[len(p.Instrs)-1].(*ssa.If)
+			if !ok || p.Succs[0] != blk {
+				return false
+			}
+			bo, ok := ifi.Cond.(*ssa.BinOp)
+			if !ok || bo.Op != token.EQL {
+				return false
+			}
+			found := false
+			for i, o := range []ssa.Value{bo.X, bo.Y} {
+				if k, isC := o.(*ssa.Const); isC && k.Value != nil && k.Value.Kind() == constant.String {
+					if isTypeNameOf([]ssa.Value{bo.Y, bo.X}[i], X) {
+						names = append(names, constant.StringVal(k.Value))
+						found = true
+					}
+				}
+			}
+			if !found {
+				return false
+			}
+		}
+		return true
+	}
+	// walk up single-predecessor chains to the shared case body
+	for blk := b; blk != nil; blk = blk.Idom() {
+		names = nil
+		if len(blk.Preds) >= 2 && collect(blk, 0) {
+			return names
+		}
+		if len(blk.Preds) >= 2 {
+			return nil
+		}
+	}
+	return nil
 }
